@@ -33,7 +33,11 @@ def cases(tier, seed):
                     "grid": g, "n": n, "T": T, "sched": "scalar", "seed": seed})
     for tab in tabs:
         lo, hi = tables.table_range(tab)
-        for p_i, ratio, copy in itertools.product(p_is, RATIOS, (0, 1)):
+        for p_i, ratio, copy in itertools.product(p_is, RATIOS + ["table-min"], (0, 1)):
+            if ratio == "table-min":  # frac-face pressure exactly at the first table row
+                if copy or p_i != 8000.0:
+                    continue
+                ratio = lo / p_i
             if copy == 1:  # secondary lattice copy: shifted inside the cell by the seed offset
                 if seed == 0:
                     continue
